@@ -527,3 +527,9 @@ package catalog
 //@   ensures[C05,@distinct-tags] imp(result1 == nil, distinctTags(result0))
 //@ func (*Catalog).tagsFromTagsDirective loop 1
 //@   invariant distinctTags(tt) && fresh(tt.arr)
+//@ func (*Catalog).tags(c, d, id)
+//@   property C05
+//@   attr assumesafe
+//@   requires catInv(c)
+//@   modifies anything
+//@   ensures[C05,@distinct-tags] imp(result1 == nil, distinctTags(result0))
